@@ -297,8 +297,25 @@ def rasmonOp (rest : String) : String :=
     | _, _ => "bad-op"
   | _ => "bad-op"
 
+/-- civmon <call size> <local offset> <local size> | <off:size ...>  (what the real Compiler function did before its call) -/
+def civmonOp (rest : String) : String :=
+  match rest.splitOn " | " with
+  | [nums, st] =>
+    match (words nums).mapM String.toNat?, ((words st).filter (· ≠ "-")).mapM (fun t => match t.splitOn ":" with
+        | [o, z] => match o.toInt?, z.toNat? with
+          | some o, some z => some (o, z)
+          | _, _ => none
+        | _ => none) with
+    | some [css, lso, lss], some stores =>
+      match callAreaMonitor css lso lss stores with
+      | none => "good"
+      | some r => "BAD " ++ r
+    | _, _ => "bad-op"
+  | _ => "bad-op"
+
 def step (_ : Unit) (line : String) : Unit × String :=
   if line.startsWith "mon " then ((), monOp (line.drop 4).toString)
+  else if line.startsWith "civmon " then ((), civmonOp (line.drop 7).toString)
   else if line.startsWith "rasm " then ((), rasmOp (line.drop 5).toString)
   else if line.startsWith "rasmon " then ((), rasmonOp (line.drop 7).toString)
   else match words line with
